@@ -243,7 +243,7 @@ impl World {
     }
 
     /// Creates fresh subjects (and the v0 proposition of each) for `cases` and
-    /// records the first `upto` events of every case (all when None).
+    /// records every statement of every case: transaction j carries statement j of each case.
     pub fn record(&mut self, cases: &[Case]) -> (String, Vec<Recorded>) {
         self.batches += 1;
         let batch = format!("{}-b{}", self.tag, self.batches);
